@@ -114,6 +114,7 @@ class ConnProxy:
 # ---- environment shared by the patched library functions ------------------------------------------
 ENV = SimpleNamespace(key=None, kids=[], version=0)
 POOL = {}            # material id -> private key object
+UNKNOWN = 999999     # id of material / certificate bytes the history never introduced (a number the model can read)
 PUB_ID = {}          # public key DER -> material id
 PRIV_ID = {}         # private key DER -> material id
 N_EC, N_RSA = 70, 3
@@ -314,7 +315,7 @@ class Impl:
         return [1, abs_name(r.name), int(bool(r.is_default))]
 
     def _key(self, k):
-        return [2, abs_name(k.name), PUB_ID.get(bytes(k.key_bits), -1), int(bool(k.is_default))]
+        return [2, abs_name(k.name), PUB_ID.get(bytes(k.key_bits), UNKNOWN), int(bool(k.is_default))]
 
     def _do(self, op, v):
         from ndn.security.signer.sha256_digest_signer import DigestSha256Signer
@@ -379,7 +380,7 @@ class Impl:
                 return [3, [0]]
             if isinstance(s, DigestSha256Signer):
                 return [3, [1]]
-            return [3, [2, PRIV_ID.get(bytes(s.key_der), -1), abs_name(s.key_locator_name)]]
+            return [3, [2, PRIV_ID.get(bytes(s.key_der), UNKNOWN), abs_name(s.key_locator_name)]]
         if c == 14:
             self.reopen()
             return [0]
@@ -463,7 +464,7 @@ class Impl:
                 return 0
         except Exception:   # noqa
             pass
-        return -1
+        return UNKNOWN
 
     def note(self, site, cls, what):
         self.notes.append((site, cls, what))
@@ -532,7 +533,7 @@ class Impl:
                     dc = []
                 if k.has_default_cert() != bool(dc):
                     self.note('Key.has_default_cert', 'disagrees-with-default_cert', f'{kn}')
-                keys.append([kn, PUB_ID.get(bytes(k.key_bits), -1), int(bool(k.is_default)), len(k), sorted(certs), dc])
+                keys.append([kn, PUB_ID.get(bytes(k.key_bits), UNKNOWN), int(bool(k.is_default)), len(k), sorted(certs), dc])
             try:
                 dk = [abs_name(ident.default_key().name)]
             except KeyError:
@@ -550,7 +551,7 @@ class Impl:
         for fn in sorted(os.listdir(self.tpmdir)):
             with open(os.path.join(self.tpmdir, fn), 'rb') as f:
                 der = base64.b64decode(f.read())
-            tpm.append([self.files.get(fn, [-1]), PRIV_ID.get(der, -1)])
+            tpm.append([self.files.get(fn, [UNKNOWN]), PRIV_ID.get(der, UNKNOWN)])
         return [len(kc), sorted(ids), di, sorted(tpm)]
 
 
